@@ -113,6 +113,8 @@ pub fn base_b2(enc: TextEncoding) -> Automerge {
         tx.put(&tx_, 3, "👨\u{200d}👩\u{200d}👧")?;
         // ... and so does map key `e` (a counter that loses against y's string)
         tx.put(ROOT, "e", automerge::ScalarValue::counter(1))?;
+        // `cc`: two concurrently created counters in one register ...
+        tx.put(ROOT, "cc", automerge::ScalarValue::counter(10))?;
         Ok(())
     });
     must(&mut x, |tx| {
@@ -132,6 +134,7 @@ pub fn base_b2(enc: TextEncoding) -> Automerge {
         tx.put(&ly, 2, "q")?;
         tx.put(&ty, 2, "z")?;
         tx.put(ROOT, "e", "s")?;
+        tx.put(ROOT, "cc", automerge::ScalarValue::counter(20))?;
         Ok(())
     });
     let mut y1 = y.clone();
@@ -148,6 +151,11 @@ pub fn base_b2(enc: TextEncoding) -> Automerge {
     d.merge(&mut x).unwrap();
     d.merge(&mut y1).unwrap();
     d.merge(&mut y).unwrap();
+    // ... incremented by a replica that has seen both (one increment op with two counter predecessors)
+    must(&mut d, |tx| {
+        tx.increment(ROOT, "cc", 5)?;
+        Ok(())
+    });
     d
 }
 
